@@ -408,6 +408,17 @@ func init() {
 					}
 				}
 			}
+			// long strings: exactly at their length, one below, one above
+			for _, n := range []int{255, 256, 257, 65535, 65536, 65537, 70000, 1 << 20} {
+				doc := "\"" + strings.Repeat("a", n) + "\""
+				oks := []bool{}
+				for _, k := range []int{n - 1, n, n + 1} {
+					sch := jschema.New("s", fmt.Sprintf("%q // {minLength: %d, maxLength: %d}", strings.Repeat("b", k), k, k))
+					oks = append(oks, guard(func() error { return sch.Validate(jdoc.New("d", doc)) }).OK)
+				}
+				w.Write(map[string]interface{}{"op": "biglen", "n": n, "oks": oks, "text": "{minLength: k, maxLength: k}, k = n-1, n, n+1", "doctext": fmt.Sprintf("a string of %d letters", n)})
+				calls++
+			}
 			// wide objects: 300 named required properties (all present / one missing / one of the wrong kind / one too many), and 70 000 properties
 			// under additionalProperties (in the trace: the two kinds of property that occur, the requirement does not count them)
 			{
